@@ -928,6 +928,8 @@ def limits_profile(rng, n):
             if rng.random() < (0.3 if subs else 0.6):
                 kind = rng.choice(["d", "d", "w"])
                 val = rng.choice([2, 3, 4, 6, 6.5, 2.5]) * 3600 if kind == "d" else rng.choice([8, 10, 16, 20, 12.5]) * 3600
+                if G == 3600 and rng.random() < 0.12:
+                    val = 1800          # less than one slot a day / week: nothing can be booked, inside the declared window or beyond it
                 lim.append((kind, int(val)))
             hours = std_hours(540, 1020, range(7)) if rng.random() < 0.4 else None
             par = (subs[k % len(subs)] if subs else grp) if (grp and rng.random() < 0.8) else None
